@@ -151,6 +151,36 @@ def register(op):
             raise Modified()
         return out
 
+    @op("rotate_db_members")
+    def _(a):
+        """[seq, sst, mask]: rotate_complex_db on a sequence whose k-th member is a fresh DomainS object when mask[k] is
+        true and the plain name otherwise.  Every rotation is reported as [names, structure, origins]; origins[j] is the
+        position in THIS call's input of the very object (identity) standing at position j, -1 when the member is not an
+        object of the input at all ('+' markers, which the library inserts itself, are reported as -2)."""
+        from dsdobjects import complex_utils as cu
+        seq, sst, mask = a
+        reset()
+        doms = {}
+        sq = []
+        for k, n in enumerate(seq):
+            if n != "+" and mask[k % len(mask)] if mask else False:
+                if n not in doms:
+                    doms[n] = bc.DomainS(n, length=_length(n))
+                sq.append(doms[n])
+            else:
+                sq.append(n)
+        st = list(sst)
+        ids = {}
+        for k, m in enumerate(sq):
+            ids.setdefault(id(m), k)
+        out = []
+        for x, y in cu.rotate_complex_db(sq, st):
+            x = list(x)
+            out.append([names(x), list(y), [-2 if (isinstance(m, str) and m == "+") else ids.get(id(m), -1) for m in x]])
+        if names(sq) != list(seq) or st != list(sst):
+            raise Modified()
+        return out
+
     @op("obj_size")
     def _(a):
         seq, sst = a
